@@ -370,6 +370,9 @@ Proof.
   { unfold wf_meta in Hmeta. rewrite Forall_forall in Hmeta. apply Hmeta. eapply alookup_Some_snd, El. }
   destruct Hl as (Hm & Hp).
   set (mats := ln_materials l) in *. set (prods := ln_products l) in *. cbv zeta.
+  rewrite (filter_ext (fun name => negb (deep_equal (alookup (clean_artifact_paths mats) name) (alookup (clean_artifact_paths prods) name)))
+                      (fun name => negb (deep_equal (alookup mats name) (alookup prods name))))
+    by (intro a; rewrite !clean_artifact_paths_wf by assumption; reflexivity).
   set (cl := sdiff (path_set prods) (path_set mats)).
   set (dl := sdiff (path_set mats) (path_set prods)).
   set (ml := filter _ (sinter (path_set mats) (path_set prods))).
